@@ -33,7 +33,10 @@ C02_SEEDS = [b"1.0a1.post0", b"1.0a1", b"1.0.post1+a", b"1.0.post1+b", b"1.0.dev
              b"1.0+18446744073709551615", b"1.0b1+x", b"1.0b1.post1"]
 C10_SEEDS = [b"1.*.2", b"1.*", b"1.*.3", b"1a18446744073709551615", b"1.post18446744073709551615",
              b"1.dev9223372036854775809", b"1a9223372036854775808", b"0!1", b"1.0+A-b_c", b"1.\xe2\x88\x9e",
-             b"1.0.post", b"1.0-1", b"v1.0", b"1.0 ", b"1.0\xc2\xa0", b"1.2.3.4.*", b"1.0rc", b"1.0c5", b"01.002"]
+             b"01!\xe2\x88\x9e", b"00!\xe2\x88\x9e.1", b"12!\xe2\x88\x9e", b"1.0+Ubuntu1", b"1.0.post", b"1.0-1", b"v1.0", b"1.0 ", b"1.0\xc2\xa0", b"1.2.3.4.*", b"1.0rc", b"1.0c5", b"01.002"]
+
+
+PYPI_FINDINGS = ("F-C02-2", "F-C02-21", "F-C02-22", "F-C10-21", "F-C10-22", "F-C10-23")
 
 
 def _open_known(ctx):
@@ -298,6 +301,8 @@ def c02(ctx):
 def _replay_known(ctx, known):
     """replay the recorded witnesses of the open findings on the Go code"""
     for fid, k in sorted(known.items()):
+        if fid not in PYPI_FINDINGS:
+            continue
         for w in k.get("witnesses", [k["witness"]] if "witness" in k else []):
             out = ctx.impl(w["kind"], [w["arg"]])[0]
             if out != w.get("failing_output"):
@@ -344,7 +349,8 @@ def c10(ctx):
         if cv != canon1:
             ctx.violation("pypi.CanonVersion differs from Canon(true) of the parsed version", {"string": s}, observed=cv, required=canon1)
         wild = -1 in _dump[4][:-1]
-        fid = None if indom else ("F-C10-21" if wild else "F-C10-22")
+        inf_first = _dump[4][0] == TWO63 - 1
+        fid = None if indom else ("F-C10-21" if wild else ("F-C10-23" if inf_first else "F-C10-22"))
         if re[0] != b"ok":
             _hit(ctx, known, fid, "PyPI: the canonical string does not parse", {"system": "PyPI", "string": s, "canon": canon1},
                  observed="err", required="parses")
